@@ -144,7 +144,9 @@ impl Env {
             let mut dirs: Vec<PathBuf> = Vec::with_capacity(targets.len());
             for t in targets.iter() {
                 match t.as_path().parent() {
-                    Some(par) => dirs.push(helpers::abs_path(&cwd, &par).into_owned()),
+                    // Cleaned, like abspath: "sub/.." is the directory above, not "sub".
+                    Some(par) => dirs
+                        .push(helpers::normpath(&helpers::abs_path(&cwd, &par)).into_owned()),
                     None => {
                         return Err(
                             RedoErrorKind::InvalidTarget(t.as_os_str().to_os_string()).into()
